@@ -198,9 +198,10 @@ func (t Text) TrimWcwidth(wmax int) Text {
 	var newt Text
 	for _, seg := range t {
 		w := wcwidth.Of(seg.Text)
-		if w >= wmax {
-			newt = append(newt,
-				&Segment{seg.Style, wcwidth.Trim(seg.Text, wmax)})
+		if w > wmax {
+			if trimmed := wcwidth.Trim(seg.Text, wmax); trimmed != "" {
+				newt = append(newt, &Segment{seg.Style, trimmed})
+			}
 			break
 		}
 		wmax -= w
